@@ -2764,6 +2764,13 @@ class DeltaChainIterator(Generic[T]):
             unpacked = self._resolve_object(offset, obj_type_num, base_chunks)
             yield self._result(unpacked)
 
+            if self._ext_refs and unpacked.sha() in self._ext_refs:
+                # An object of this pack was taken from the store a moment
+                # ago as the base of another delta, because its own base is
+                # external and had not been resolved yet. It is not external:
+                # completing the pack must not add a second copy of it.
+                self._ext_refs.remove(RawObjectID(unpacked.sha()))
+
             assert unpacked.offset is not None
             unblocked = chain(
                 self._pending_ofs.pop(unpacked.offset, []),
